@@ -1,6 +1,6 @@
 (* C06  Removed sources are gone for good; their tokens die; everything is released once. *)
 From CV Require Import Base Consts Token PostAction Env Loop.
-From CVP Require Import Loop_frames Seq_lemmas Env_lemmas C06_proofs.
+From CVP Require Import Loop_frames Seq_lemmas Env_lemmas C06_proofs C14_life C14_life2 C06_release.
 Open Scope N_scope.
 
 (* remove(): right afterwards the handle's token no longer resolves to a source *)
@@ -31,8 +31,8 @@ Proof.
   destruct (N.eq_dec (t_ver t) 65535) as [->|Hne]; [discriminate|]. rewrite N.mod_small by lia. lia.
 Qed.
 (* at the end of an event's processing nothing is marked running: the in-flight clone is released *)
-Theorem C06_released_after_processing : forall s o, running (end_processing s o) = None /\ zombies (end_processing s o) = zombies (end_processing s o).
-Proof. intros s o. split; [apply running_end_processing|reflexivity]. Qed.
+Theorem C06_released_after_processing : forall s o, running (end_processing s o) = None.
+Proof. intros s o. apply running_end_processing. Qed.
 
 (* WHOLE HISTORIES. Between any two states of any scenario (any commands, any scripted callbacks, dispatches, idles) every
    slot only moves forward: a later generation, or the same generation with the same token and the same source or none
@@ -48,6 +48,40 @@ Theorem C06_token_dead_forever : forall scr bscr cmds1 cmds2 t,
 Proof. exact token_dead_forever_run. Qed.
 Theorem C06_dead_token_dead_handle : forall s h t, toks s h = Some t -> lc_lookup s t = None -> lookup s h = None.
 Proof. exact lookup_none_of_dead. Qed.
+
+(* RELEASE, whole histories. `objs s o = Some ob` is "the source and callback of object o have not been dropped yet" (dropping
+   is `drop_obj`, which prints the DROP line the correspondence check compares with the implementation's drop counters);
+   `o_ext ob` is "the user holds a Dispatcher clone of it". After any scenario - any commands, scripted callbacks that
+   remove themselves or others, post-actions, dispatches, idles - at every point between two top-level operations, i.e. in
+   particular once a dispatch has returned: every object not yet dropped is in a live slot or is kept alive by the user's own
+   Dispatcher, and nothing is parked on the deferred-drop list. So a removed source nobody else holds has been released by
+   the end of the dispatch in progress. *)
+Theorem C06_released_by_end_of_dispatch : forall scr bscr cmds o ob,
+  let s := run scr bscr cmds in
+  gens_small (slots s) -> halted s = false -> objs s o = Some ob -> in_slots (slots s) o = false -> o_ext ob = true.
+Proof. exact released_after_any_history. Qed.
+Theorem C06_no_deferred_drop_outlives_dispatch : forall scr bscr cmds,
+  let s := run scr bscr cmds in gens_small (slots s) -> halted s = false -> zombies s = [] /\ running s = None.
+Proof.
+  cbv zeta. intros scr bscr cmds G Hh. destruct (run_FULL scr bscr cmds G) as [X|(_ & Hr & _ & Z)]; [congruence|]. split; assumption.
+Qed.
+
+(* the release theorems are met by real histories: a ping source that removes itself inside its own callback. With the
+   user's Dispatcher clone dropped beforehand the object is still stored before the dispatch and gone (dropped, DROP line
+   printed once) when the dispatch returns; with the clone kept it is still stored, out of every slot, and marked external *)
+Example C06_release_nonvacuous :
+  let g := mkGen 10 (mkInt true false) Level None false in
+  let scr : scripts := fun h => if N.eqb h 1 then [mkScript [ARemove 1] 0 0%Z] else [] in
+  let pre := [CAct (ANewPing 1 10); CAct (AInsert 1 (SPing g)); CAct (ADropDisp 1); CAct (APing 1)] in
+  let keep := [CAct (ANewPing 1 10); CAct (AInsert 1 (SPing g)); CAct (APing 1)] in
+  let a := run scr (fun _ => []) pre in
+  let b := run scr (fun _ => []) (pre ++ [CDispatch 0%Z []]) in
+  let c := run scr (fun _ => []) (keep ++ [CDispatch 0%Z []]) in
+  (halted a = false /\ objs a 1 <> None /\ in_slots (slots a) 1 = true) /\
+  (halted b = false /\ cbn b 1 = 1%nat /\ objs b 1 = None /\ in_slots (slots b) 1 = false /\
+   filter (fun l => match l with L k _ => N.eqb k 15 end) (trace_of b) = [L 15 [1%Z]]) /\
+  (halted c = false /\ in_slots (slots c) 1 = false /\ option_map o_ext (objs c 1) = Some true).
+Proof. vm_compute. repeat split; discriminate. Qed.
 
 Example C06_nonvacuous :
   let s := run (fun _ => []) (fun _ => []) [CAct (ANewPing 1 10); CAct (AInsert 1 (SPing (mkGen 10 (mkInt true false) Level None false)))] in
